@@ -34,15 +34,19 @@ impl<'a> EqualityBuilder<'a> {
                 }
                 Some(cred) => {
                     if let PresentationCredential::Signature(c) = cred {
-                        let sc = c.claims[*claim_index].to_scalar();
+                        let sc = c
+                            .claims
+                            .get(*claim_index)
+                            .ok_or_else(|| Error::InvalidPresentationData(format!("equality statement with id '{}' references claim '{}' of '{}' which doesn't exist", reference_statement.id, claim_index, id)))?
+                            .to_scalar();
                         scalars.push(sc);
                     }
                 }
             }
         }
         let mut res = true;
-        for i in 0..scalars.len() - 1 {
-            res &= scalars[i] == scalars[i + 1];
+        for pair in scalars.windows(2) {
+            res &= pair[0] == pair[1];
         }
         if !res {
             return Err(Error::InvalidClaimData(
